@@ -72,7 +72,8 @@ def main():
                     raise E.MachineryError(f'action {a} never taken')
         nontriv = 0
         # (1) the sample itself
-        sreq = [[c['y'], c['x'], c['rnum'] / DEN] for c in cases]
+        # the feature vector carries the ROW IDS, so the returned Y reveals exactly which rows were gathered
+        sreq = [[list(range(len(c['x']))), c['x'], c['rnum'] / DEN] for c in cases]
         sgot, scr = MC.real_eval('sample', sreq, poison=MC.POISONS)
         for idx, rc, err in scr:
             c = cases[idx]
@@ -87,12 +88,15 @@ def main():
             if g is None:
                 continue
             ys, xs, fin = g
-            ey, ex = [c['y'][i] for i in c['S']], [c['x'][i] for i in c['S']]
             if fin != final:
                 raise E.MachineryError(f'floor(r*n) mismatch {fin} vs {final}')
-            if ys != ey or xs != ex:
+            # property level: the SET of rows used (per target value the first quota rows; all rows when the quota is 0);
+            # the order in which they are gathered is not part of the statement (drift only)
+            if sorted(ys) != sorted(c['S']) or any(not (0 <= i < n) or xs[j] != c['x'][i] for j, i in enumerate(ys)):
                 V.violation(f'sample:Y={c["y"]} X={c["x"]} r={c["rnum"]}/8',
-                            f'stratified_subsampling returned Y={ys} X={xs}; specified sample rows {c["S"]} give Y={ey} X={ex}', c)
+                            f'stratified_subsampling gathered rows {ys} (X values {xs}); specified sample rows {sorted(c["S"])}', c)
+            elif ys != c['S']:
+                drift += 1
         # (2) determinism within and across processes, finiteness
         req = [[c['y'], c['x'], c['rnum'] / DEN, c['c']] for c in cases]
         runs3 = []
@@ -159,7 +163,7 @@ def main():
                     x = [rng.randrange(max(2, n // 5)) for _ in range(n)]
                 y = [(v + rng.randrange(2)) % 4 for v in x]
                 big.append((fam, n, rr, y, x))
-    sgot, scr = MC.real_eval('sample', [[y, x, rr] for _, _, rr, y, x in big], poison=MC.POISONS, stride=True)
+    sgot, scr = MC.real_eval('sample', [[list(range(len(x))), x, rr] for _, _, rr, y, x in big], poison=MC.POISONS, stride=True)
     for idx, rc, err in scr:
         fam, n, rr, y, x = big[idx]
         V.violation(f'crash-sample:large:{fam}:n={n}:r={rr}', f'stratified_subsampling died ({E.signal_name(rc)})', {'family': fam, 'n': n, 'r': rr, 'seed': seed, 'Y': y[:400], 'X': x[:400]})
@@ -173,8 +177,8 @@ def main():
             if fin != final_of(rr, n):
                 raise E.MachineryError(f'floor(r*n): harness {final_of(rr, n)} vs numpy {fin}')
             S = O.spec_sample_final(x, fin)
-            if ys != [y[i] for i in S] or xs != [x[i] for i in S]:
-                V.violation(f'sample:large:{fam}:n={n}:r={rr}', f'stratified_subsampling returned {len(xs)} rows, specified sample has {len(S)} rows (or different rows)',
+            if sorted(ys) != sorted(S) or any(not (0 <= i < n) or xs[j] != x[i] for j, i in enumerate(ys)):
+                V.violation(f'sample:large:{fam}:n={n}:r={rr}', f'stratified_subsampling gathered {len(ys)} rows, specified sample has {len(S)} rows (or different rows)',
                             {'family': fam, 'n': n, 'r': rr, 'seed': seed, 'Y': y[:400], 'X': x[:400]})
             if n <= 300:
                 # recover the row indices the real code gathered: rows are identified by (x value, rank within value)
